@@ -34,7 +34,11 @@ def check_cache(
 
     from hypergraph.cache import compute_cache_key
 
-    cache_key = compute_cache_key(node.definition_hash, inputs)
+    # The function alone does not identify the entry: two nodes built from one
+    # function may differ in output names, and two gates in their targets (the
+    # cached routing decision is a target name).
+    identity = f"{node.definition_hash}:{node.outputs!r}:{getattr(node, 'targets', None)!r}"
+    cache_key = compute_cache_key(identity, inputs)
     if not cache_key:
         return "", None
 
